@@ -63,9 +63,22 @@ def cfg_with(name, inv=None, props=None, consts=None):
     return cfg
 
 
-def mc_cfg(res, name, expect=None, timeout=900, inv=None, props=None, consts=None, label=None):
+def mc_cfg(res, name, expect=None, timeout=900, inv=None, props=None, consts=None, label=None, simulate=None):
+    """simulate=(num, depth): the constants in `consts` are explored by random walks (thorough tiers use it for
+    bounds whose exhaustive search does not finish: MaxTx = 3 takes > 10 min for three of the four universes)."""
     cfg = cfg_with(name, inv, props, consts)
-    res.add_mc(label or name, core.tlc_mc("NutsMC", cfg, timeout=timeout), expect_violation=expect)
+    res.add_mc((label or name) + (" [simulation]" if simulate else ""), core.tlc_mc("NutsMC", cfg, timeout=timeout, simulate=simulate), expect_violation=expect)
+
+
+def split_file(path, n):
+    """Split a scenario file into n files with the lines dealt round-robin."""
+    outs = [open("%s.part%d" % (path, i), "w") for i in range(n)]
+    with open(path) as f:
+        for j, line in enumerate(f):
+            outs[j % n].write(line)
+    for o in outs:
+        o.close()
+    return ["%s.part%d" % (path, i) for i in range(n)]
 
 
 def ds_check(pid, kind, fam, mc, tier, seed, gen_quick, gen_thorough, what):
@@ -80,10 +93,14 @@ def ds_check(pid, kind, fam, mc, tier, seed, gen_quick, gen_thorough, what):
     res.extra["emitted_transitions"] = n
     lay = "1"
     if kind == "zset":
-        lay = "2" if tier == "quick" else "16"
-    shards = [["@replay", "-in", path, "-mode", "tx", "-layouts", lay, "-seed", str(seed)],
-              # on the exported types only the SMove deviation applies (F-C06-1 and F-C07-1 are Tx-level)
-              ["@replay", "#dev=F-C06-2", "-in", path, "-mode", "ds", "-layouts", lay, "-seed", str(seed)]]
+        lay = "2" if tier == "quick" else "6"
+    # large scenario files are dealt round-robin into parts, one replay (and one TLC validation) per part
+    parts = [path] if n < 20000 else split_file(path, 12)
+    shards = []
+    for pp in parts:
+        shards += [["@replay", "-in", pp, "-mode", "tx", "-layouts", lay, "-seed", str(seed)],
+                   # on the exported types only the SMove deviation applies (F-C06-1 and F-C07-1 are Tx-level)
+                   ["@replay", "#dev=F-C06-2", "-in", pp, "-mode", "ds", "-layouts", lay, "-seed", str(seed)]]
     # code -> spec: long random sequences through transactions
     nseed = 3 if tier == "quick" else 40
     hist, steps = (3, 60) if tier == "quick" else (4, 300)
@@ -134,7 +151,9 @@ def c08(tier, seed):
     core.build()
     q = tier == "quick"
     for name in ("NutsMC_kv", "NutsMC_ls", "NutsMC_st", "NutsMC_zs"):
-        mc_cfg(res, name, inv=["MCReopenInv", "TypeOK"], props=[], consts=None if q else {"MaxTx": "= 3"}, timeout=1800)
+        mc_cfg(res, name, inv=["MCReopenInv", "TypeOK"], props=[], timeout=1800)
+        if not q:
+            mc_cfg(res, name, inv=["MCReopenInv", "TypeOK"], props=[], consts={"MaxTx": "= 3", "MaxOps": "= 3"}, simulate=(40000, 40), timeout=1800)
     # the recorded deviations must be counterexamples of this invariant in the model
     mc_cfg(res, "NutsMC_st", expect="MCReopenInv", inv=["MCReopenInv"], props=[], consts={"Dev": '= {"F-C06-2"}'}, label="NutsMC_st+F-C06-2")
     mc_cfg(res, "NutsMC_kv", expect="MCReopenInv", inv=["MCReopenInv"], props=[], consts={"UniqueIds": "= FALSE"}, label="NutsMC_kv+duplicate-tx-ids")
@@ -157,7 +176,9 @@ def c12(tier, seed):
     core.build()
     q = tier == "quick"
     for name in ("NutsMC_kv", "NutsMC_ls", "NutsMC_st", "NutsMC_zs"):
-        mc_cfg(res, name, inv=["TypeOK"], props=["NoEffect"], consts=None if q else {"MaxTx": "= 3"}, timeout=1800)
+        mc_cfg(res, name, inv=["TypeOK"], props=["NoEffect"], timeout=1800)
+        if not q:
+            mc_cfg(res, name, inv=["TypeOK"], props=["NoEffect"], consts={"MaxTx": "= 3", "MaxOps": "= 3"}, simulate=(40000, 40), timeout=1800)
     mc_cfg(res, "NutsMC_st", expect="NoEffect", inv=[], props=["NoEffect"], consts={"Dev": '= {"F-C06-2"}'}, label="NutsMC_st+F-C06-2")
     commit_mc(res, "Commit(faults)", inv=["TypeOK", "FaultAtomic"], consts=None if q else {"MaxTx": "4", "MaxRecs": "3", "Cap": "3"})
     commit_mc(res, "Commit+IndexDuringWrite", consts={"Sw": '{"IndexDuringWrite"}'}, inv=["FaultAtomic"], expect="FaultAtomic")
@@ -179,7 +200,9 @@ def c13(tier, seed):
     core.build()
     q = tier == "quick"
     for name in ("NutsMC_kv", "NutsMC_ls", "NutsMC_st", "NutsMC_zs"):
-        mc_cfg(res, name, inv=["TypeOK"], props=["SerialView", "SerialResults"], consts=None if q else {"MaxOps": "= 3"}, timeout=1800)
+        mc_cfg(res, name, inv=["TypeOK"], props=["SerialView", "SerialResults"], timeout=1800)
+        if not q:
+            mc_cfg(res, name, inv=["TypeOK"], props=["SerialView", "SerialResults"], consts={"MaxTx": "= 3", "MaxOps": "= 3"}, simulate=(40000, 40), timeout=1800)
     mc_cfg(res, "NutsMC_ls", expect="SerialResults", inv=[], props=["SerialResults"], consts={"Dev": '= {"F-C13-1"}'}, label="NutsMC_ls+F-C13-1")
     shards = []
     ntr = 0
@@ -291,7 +314,9 @@ def c04(tier, seed):
     core.build()
     q = tier == "quick"
     for name in ("NutsMC_kv", "NutsMC_ls", "NutsMC_st", "NutsMC_zs"):
-        mc_cfg(res, name, inv=["TypeOK"], props=["BucketIsolation"], consts=None if q else {"MaxTx": "= 3"}, timeout=1800)
+        mc_cfg(res, name, inv=["TypeOK"], props=["BucketIsolation"], timeout=1800)
+        if not q:
+            mc_cfg(res, name, inv=["TypeOK"], props=["BucketIsolation"], consts={"MaxTx": "= 3", "MaxOps": "= 3"}, simulate=(40000, 40), timeout=1800)
     fams = [("iso", []), ("isokv", ["-mode", "keyval"]), ("isokv", ["-mode", "keyonly"])] + SPARSE_ISO
     shards = fam_shards(fams, seed, 2 if q else 20, 3 if q else 4, 40 if q else 100)
     rs = core.drive_and_validate(res, shards, core.dev_set(), "a write to one bucket changed what a read of another bucket returns (or a bucket does not return its own data)",
@@ -511,17 +536,6 @@ def c18(tier, seed):
     return res.finish()
 
 
-def split_file(path, n):
-    """Split a scenario file into n files with the lines dealt round-robin."""
-    outs = [open("%s.part%d" % (path, i), "w") for i in range(n)]
-    with open(path) as f:
-        for j, line in enumerate(f):
-            outs[j % n].write(line)
-    for o in outs:
-        o.close()
-    return ["%s.part%d" % (path, i) for i in range(n)]
-
-
 def c21(tier, seed):
     res = Result("C21", tier, seed)
     core.build()
@@ -549,7 +563,9 @@ def c15(tier, seed):
     core.build()
     q = tier == "quick"
     for name in ("NutsMC_kv", "NutsMC_ls", "NutsMC_st", "NutsMC_zs"):
-        mc_cfg(res, name, inv=["MCReopenInv", "TypeOK"], props=["MergePreserves"], consts=None if q else {"MaxTx": "= 3"}, timeout=1800)
+        mc_cfg(res, name, inv=["MCReopenInv", "TypeOK"], props=["MergePreserves"], timeout=1800)
+        if not q:
+            mc_cfg(res, name, inv=["MCReopenInv", "TypeOK"], props=["MergePreserves"], consts={"MaxTx": "= 3", "MaxOps": "= 3"}, simulate=(40000, 40), timeout=1800)
     fams = [("mergekv", ["-mode", "keyval"]), ("mergekv", ["-mode", "keyonly"]), ("mergeds", []), ("merge", [])]
     shards = fam_shards(fams, seed, 2 if q else 20, 3 if q else 4, 40 if q else 100)
     rs = core.drive_and_validate(res, shards, core.dev_set(), "a read (in the process or after reopen) changed across Merge, or a write after Merge was lost",
